@@ -213,6 +213,7 @@ var specSeq = pbt.Register(&pbt.Spec[SeqCase]{
 		return c
 	},
 	Run: RunSeq, Quick: 30000, Thorough: 100000,
+	Replicas: 4, ReplicaEvery: 8,
 })
 
 func TestC12Seq(t *testing.T) { pbt.Check(t, specSeq) }
